@@ -83,14 +83,18 @@ class Harness:
         services: Optional[Dict[str, Any]] = None,
         delays: Optional[Dict[str, Any]] = None,
         extra_actions: Optional[Dict[str, Any]] = None,
+        extra_guards: Optional[Dict[str, Any]] = None,
         with_plugin: bool = True,
         with_subscriber: bool = False,
         fresh_machine: bool = False,
+        budget: Optional[int] = 4000,
     ) -> None:
         self.cfg = cfg
         self.rec = Recorder()
+        self.rec.budget = budget
         self._kw = dict(
-            guards=guards, services=services, delays=delays, extra_actions=extra_actions
+            guards=guards, services=services, delays=delays, extra_actions=extra_actions,
+            extra_guards=extra_guards,
         )
         self.with_plugin = with_plugin
         self.with_subscriber = with_subscriber
@@ -130,6 +134,8 @@ class Harness:
         return PureDriver(self)
 
     def driver(self, engine: str):
+        # one log per execution: the budget and `mark()` are per driver
+        self.rec.log = []
         return {"sync": self.sync, "async": self.asyn, "pure": self.pure}[engine]()
 
 
@@ -182,6 +188,8 @@ class SyncDriver:
 
     def quiescent_ok(self) -> Optional[str]:
         i = self.interp
+        if i.status != "running":
+            return None
         if i._is_processing:
             return "_is_processing still set"
         if i._event_queue:
@@ -248,6 +256,8 @@ class AsyncDriver:
 
     def quiescent_ok(self) -> Optional[str]:
         i = self.interp
+        if i.status != "running":
+            return None
         if i._processing:
             return "_processing still set"
         if not i._event_queue.empty():
